@@ -59,4 +59,17 @@ theorem flushFrame_as_modelled :
   refine ⟨?_, ?_, ?_, ?_⟩ <;> rfl
 
 
+/-- today's newMaskKey (one draw of 4 bytes from the key source per call), isControl and isData are the modelled ones -/
+theorem key_source_and_opcode_classes_as_modelled :
+    Gen.stmts_newMaskKey =
+      ["var k [4]byte",
+        "_, _ = io.ReadFull(maskRand, k[:])",
+        "return k"] ∧
+    Gen.stmts_isControl =
+      ["return frameType == CloseMessage || frameType == PingMessage || frameType == PongMessage"] ∧
+    Gen.stmts_isData =
+      ["return frameType == TextMessage || frameType == BinaryMessage"] := by
+  refine ⟨?_, ?_, ?_⟩ <;> rfl
+
+
 end WS.Props.C02Tie
